@@ -1583,7 +1583,7 @@ func retClass(v ssa.Value, kind string) int {
 var allocCtorMemo = map[*ssa.Function]int{}
 
 func allocatingCtor(fn *ssa.Function, depth int) bool {
-	if fn.Blocks == nil || depth > 3 {
+	if fn.Blocks == nil || depth > 12 {
 		return false
 	}
 	switch allocCtorMemo[fn] {
@@ -1631,14 +1631,12 @@ func allocatingCtor(fn *ssa.Function, depth int) bool {
 		}
 	})
 	res := ok && n > 0
-	if depth == 0 || res {
-		if res {
-			allocCtorMemo[fn] = 1
-		} else {
-			allocCtorMemo[fn] = 2
-		}
+	if res {
+		allocCtorMemo[fn] = 1
+	} else if depth == 0 {
+		allocCtorMemo[fn] = 2
 	} else {
-		delete(allocCtorMemo, fn) // a depth-limited negative is not final
+		delete(allocCtorMemo, fn) // a negative found below the top may be due to a cycle cut: not final
 	}
 	return res
 }
